@@ -1002,6 +1002,17 @@ def rule_t9(F):
     return r
 
 
+def rule_t10(F):
+    """C08.O1 under C01's id: operands are evaluated (read) in source order, so `a - { a = a + 1; a }` reads `a` before the block runs."""
+    from . import c08
+    r = c08.rule_o1(F)
+    r.rule = "C01.T10"
+    r.desc = "operands are evaluated left to right: the left operand of an operator is read (stored) before the right operand is lowered"
+    for v in r.violations:
+        v.rule = "C01.T10"
+    return r
+
+
 def rules(ctx):
     F = ctx["F"]
-    return [rule_t1(F), rule_t2(F), rule_t3(F), rule_t4(F), rule_t5(F), rule_t6(F), rule_t7(F), rule_t8(F), rule_t9(F)]
+    return [rule_t1(F), rule_t2(F), rule_t3(F), rule_t4(F), rule_t5(F), rule_t6(F), rule_t7(F), rule_t8(F), rule_t9(F), rule_t10(F)]
